@@ -251,6 +251,7 @@ func (r *Raft) stateLoop() {
 		}
 	)
 	r.ldr, r.cnd = l, c
+	verifRoles(f, c, l)
 
 	states := map[State]interface {
 		init()
